@@ -7,7 +7,10 @@ set_option linter.unusedVariables false
 def ClockSkewTolerance : Go.Duration := ((2 : Int) * Go.Minute)
 def ClockSkewToleranceFuture : Go.Duration := ((2 : Int) * Go.Minute)
 def ClockSkewTolerancePast : Go.Duration := ((10 : Int) * Go.Second)
+def accessTokenCookie : Go.Str := ['_','o','i','d','c','_','r','a','c','z','y','l','o','_','a']
 def defaultBlacklistDuration : Go.Duration := ((24 : Int) * Go.Hour)
+def maxCookieSize : Int := (2000 : Int)
+def refreshTokenCookie : Go.Str := ['_','o','i','d','c','_','r','a','c','z','y','l','o','_','r']
 
 /-- verifyIssuer (jwt.go) -/
 def verifyIssuer (tokenIssuer : Go.Str) (expectedIssuer : Go.Str) : Go.Err :=
@@ -736,5 +739,257 @@ def MetadataCache_GetMetadata (fuel : Nat) {σ : Type} (ops : Go.DOps σ) (c : G
           let c := { c with metadata := metadata }
           let c := { c with expiresAt := (Go.timeAdd (ops.clock w) ((1 : Int) * Go.Hour)) }
           some ((((metadata, (none : Go.Err)), c), w))
+
+/-- SessionData.expireAccessTokenChunks (session.go) -/
+def SessionData_expireAccessTokenChunks (fuel : Nat) (sd : Go.SessData) (w : Bool) : Option (Go.SessData) :=
+  let i := (0 : Int)
+  match Go.forWhile fuel (i, sd) (fun (i, sd) => true) (fun (i, sd) =>
+    let sessionName := (Go.chunkName accessTokenCookie i)
+    let ((session, err), sd) := Go.storeGet sd sessionName
+    if (err.isSome || (Go.sessIsNew sd session)) then
+      .brk (i, sd)
+    else
+      let sd := Go.sessSetMaxAge sd session (-(1 : Int))
+      let sd := Go.sessClearValues sd session
+      if w then
+        let (saveErr_1, sd) := Go.sessSave sd session
+        
+        let err_2 := saveErr_1
+        if err_2.isSome then
+          let i := (i + (1 : Int))
+          .next (i, sd)
+        else
+          let i := (i + (1 : Int))
+          .next (i, sd)
+      else
+        let i := (i + (1 : Int))
+        .next (i, sd)) with
+  | none => none
+  | some (.ret r) => some r
+  | some (.next (i, sd)) =>
+    some (sd)
+  | some (.brk (i, sd)) =>
+    some (sd)
+
+/-- SessionData.expireRefreshTokenChunks (session.go) -/
+def SessionData_expireRefreshTokenChunks (fuel : Nat) (sd : Go.SessData) (w : Bool) : Option (Go.SessData) :=
+  let i := (0 : Int)
+  match Go.forWhile fuel (i, sd) (fun (i, sd) => true) (fun (i, sd) =>
+    let sessionName := (Go.chunkName refreshTokenCookie i)
+    let ((session, err), sd) := Go.storeGet sd sessionName
+    if (err.isSome || (Go.sessIsNew sd session)) then
+      .brk (i, sd)
+    else
+      let sd := Go.sessSetMaxAge sd session (-(1 : Int))
+      let sd := Go.sessClearValues sd session
+      if w then
+        let (saveErr_1, sd) := Go.sessSave sd session
+        
+        let err_2 := saveErr_1
+        if err_2.isSome then
+          let i := (i + (1 : Int))
+          .next (i, sd)
+        else
+          let i := (i + (1 : Int))
+          .next (i, sd)
+      else
+        let i := (i + (1 : Int))
+        .next (i, sd)) with
+  | none => none
+  | some (.ret r) => some r
+  | some (.next (i, sd)) =>
+    some (sd)
+  | some (.brk (i, sd)) =>
+    some (sd)
+
+/-- SessionData.SetAccessToken (session.go) -/
+def SessionData_SetAccessToken (fuel : Nat) (sd : Go.SessData) (token : Go.Str) : Option (Go.SessData) :=
+  if sd.hasRequest then
+    match (SessionData_expireAccessTokenChunks fuel sd false) with
+    | none => none
+    | some sd =>
+      let sd := { sd with accessTokenChunks := ([] : List (Int × Go.SessPtr)) }
+      let compressed := (sd.compress token)
+      if (decide ((compressed.length : Int) ≤ maxCookieSize)) then
+        let sd := Go.sessSetVal sd sd.accessSession ['t','o','k','e','n'] (Go.Any.str compressed)
+        let sd := Go.sessSetVal sd sd.accessSession ['c','o','m','p','r','e','s','s','e','d'] (Go.Any.bool true)
+        some (sd)
+      else
+        let sd := Go.sessSetVal sd sd.accessSession ['t','o','k','e','n'] (Go.Any.str ([] : Go.Str))
+        let sd := Go.sessSetVal sd sd.accessSession ['c','o','m','p','r','e','s','s','e','d'] (Go.Any.bool true)
+        match (splitIntoChunks fuel compressed maxCookieSize) with
+        | none => none
+        | some chunks =>
+          match Go.forRange (Go.enum chunks) sd (fun (i, chunk) sd =>
+            let sessionName := (Go.chunkName accessTokenCookie i)
+            let ((session, _u1), sd) := Go.storeGet sd sessionName
+            let sd := Go.sessSetVal sd session ['t','o','k','e','n','_','c','h','u','n','k'] (Go.Any.str chunk)
+            let sd := { sd with accessTokenChunks := Go.imapSet sd.accessTokenChunks i session }
+            .next sd) with
+          | .ret r => some (r)
+          | .next sd =>
+            some (sd)
+          | .brk sd =>
+            some (sd)
+  else
+    let sd := { sd with accessTokenChunks := ([] : List (Int × Go.SessPtr)) }
+    let compressed := (sd.compress token)
+    if (decide ((compressed.length : Int) ≤ maxCookieSize)) then
+      let sd := Go.sessSetVal sd sd.accessSession ['t','o','k','e','n'] (Go.Any.str compressed)
+      let sd := Go.sessSetVal sd sd.accessSession ['c','o','m','p','r','e','s','s','e','d'] (Go.Any.bool true)
+      some (sd)
+    else
+      let sd := Go.sessSetVal sd sd.accessSession ['t','o','k','e','n'] (Go.Any.str ([] : Go.Str))
+      let sd := Go.sessSetVal sd sd.accessSession ['c','o','m','p','r','e','s','s','e','d'] (Go.Any.bool true)
+      match (splitIntoChunks fuel compressed maxCookieSize) with
+      | none => none
+      | some chunks =>
+        match Go.forRange (Go.enum chunks) sd (fun (i, chunk) sd =>
+          let sessionName := (Go.chunkName accessTokenCookie i)
+          let ((session, _u2), sd) := Go.storeGet sd sessionName
+          let sd := Go.sessSetVal sd session ['t','o','k','e','n','_','c','h','u','n','k'] (Go.Any.str chunk)
+          let sd := { sd with accessTokenChunks := Go.imapSet sd.accessTokenChunks i session }
+          .next sd) with
+        | .ret r => some (r)
+        | .next sd =>
+          some (sd)
+        | .brk sd =>
+          some (sd)
+
+/-- SessionData.GetAccessToken (session.go) -/
+def SessionData_GetAccessToken (fuel : Nat) (sd : Go.SessData) : Option (Go.Str) :=
+  let (token, _u1) := Go.asStr (Go.sessVal sd sd.accessSession ['t','o','k','e','n'])
+  if (token != ([] : Go.Str)) then
+    let (compressed, _u2) := Go.asBool (Go.sessVal sd sd.accessSession ['c','o','m','p','r','e','s','s','e','d'])
+    if compressed then
+      some ((sd.decompress token))
+    else
+      some (token)
+  else
+    if ((sd.accessTokenChunks.length : Int) == (0 : Int)) then
+      some (([] : Go.Str))
+    else
+      let chunks := ([] : List Go.Str)
+      let i := (0 : Int)
+      match Go.forWhile fuel (chunks, i) (fun (chunks, i) => true) (fun (chunks, i) =>
+        let (session, ok) := Go.imapGet sd.accessTokenChunks i
+        if (!ok) then
+          .brk (chunks, i)
+        else
+          let (chunk, _u3) := Go.asStr (Go.sessVal sd session ['t','o','k','e','n','_','c','h','u','n','k'])
+          let chunks := (chunks ++ [chunk])
+          let i := (i + (1 : Int))
+          .next (chunks, i)) with
+      | none => none
+      | some (.ret r) => some r
+      | some (.next (chunks, i)) =>
+        let token := (Go.strsJoin chunks ([] : Go.Str))
+        let (compressed, _u4) := Go.asBool (Go.sessVal sd sd.accessSession ['c','o','m','p','r','e','s','s','e','d'])
+        if compressed then
+          some ((sd.decompress token))
+        else
+          some (token)
+      | some (.brk (chunks, i)) =>
+        let token := (Go.strsJoin chunks ([] : Go.Str))
+        let (compressed, _u4) := Go.asBool (Go.sessVal sd sd.accessSession ['c','o','m','p','r','e','s','s','e','d'])
+        if compressed then
+          some ((sd.decompress token))
+        else
+          some (token)
+
+/-- SessionData.SetRefreshToken (session.go) -/
+def SessionData_SetRefreshToken (fuel : Nat) (sd : Go.SessData) (token : Go.Str) : Option (Go.SessData) :=
+  if sd.hasRequest then
+    match (SessionData_expireRefreshTokenChunks fuel sd false) with
+    | none => none
+    | some sd =>
+      let sd := { sd with refreshTokenChunks := ([] : List (Int × Go.SessPtr)) }
+      let compressed := (sd.compress token)
+      if (decide ((compressed.length : Int) ≤ maxCookieSize)) then
+        let sd := Go.sessSetVal sd sd.refreshSession ['t','o','k','e','n'] (Go.Any.str compressed)
+        let sd := Go.sessSetVal sd sd.refreshSession ['c','o','m','p','r','e','s','s','e','d'] (Go.Any.bool true)
+        some (sd)
+      else
+        let sd := Go.sessSetVal sd sd.refreshSession ['t','o','k','e','n'] (Go.Any.str ([] : Go.Str))
+        let sd := Go.sessSetVal sd sd.refreshSession ['c','o','m','p','r','e','s','s','e','d'] (Go.Any.bool true)
+        match (splitIntoChunks fuel compressed maxCookieSize) with
+        | none => none
+        | some chunks =>
+          match Go.forRange (Go.enum chunks) sd (fun (i, chunk) sd =>
+            let sessionName := (Go.chunkName refreshTokenCookie i)
+            let ((session, _u1), sd) := Go.storeGet sd sessionName
+            let sd := Go.sessSetVal sd session ['t','o','k','e','n','_','c','h','u','n','k'] (Go.Any.str chunk)
+            let sd := { sd with refreshTokenChunks := Go.imapSet sd.refreshTokenChunks i session }
+            .next sd) with
+          | .ret r => some (r)
+          | .next sd =>
+            some (sd)
+          | .brk sd =>
+            some (sd)
+  else
+    let sd := { sd with refreshTokenChunks := ([] : List (Int × Go.SessPtr)) }
+    let compressed := (sd.compress token)
+    if (decide ((compressed.length : Int) ≤ maxCookieSize)) then
+      let sd := Go.sessSetVal sd sd.refreshSession ['t','o','k','e','n'] (Go.Any.str compressed)
+      let sd := Go.sessSetVal sd sd.refreshSession ['c','o','m','p','r','e','s','s','e','d'] (Go.Any.bool true)
+      some (sd)
+    else
+      let sd := Go.sessSetVal sd sd.refreshSession ['t','o','k','e','n'] (Go.Any.str ([] : Go.Str))
+      let sd := Go.sessSetVal sd sd.refreshSession ['c','o','m','p','r','e','s','s','e','d'] (Go.Any.bool true)
+      match (splitIntoChunks fuel compressed maxCookieSize) with
+      | none => none
+      | some chunks =>
+        match Go.forRange (Go.enum chunks) sd (fun (i, chunk) sd =>
+          let sessionName := (Go.chunkName refreshTokenCookie i)
+          let ((session, _u2), sd) := Go.storeGet sd sessionName
+          let sd := Go.sessSetVal sd session ['t','o','k','e','n','_','c','h','u','n','k'] (Go.Any.str chunk)
+          let sd := { sd with refreshTokenChunks := Go.imapSet sd.refreshTokenChunks i session }
+          .next sd) with
+        | .ret r => some (r)
+        | .next sd =>
+          some (sd)
+        | .brk sd =>
+          some (sd)
+
+/-- SessionData.GetRefreshToken (session.go) -/
+def SessionData_GetRefreshToken (fuel : Nat) (sd : Go.SessData) : Option (Go.Str) :=
+  let (token, _u1) := Go.asStr (Go.sessVal sd sd.refreshSession ['t','o','k','e','n'])
+  if (token != ([] : Go.Str)) then
+    let (compressed, _u2) := Go.asBool (Go.sessVal sd sd.refreshSession ['c','o','m','p','r','e','s','s','e','d'])
+    if compressed then
+      some ((sd.decompress token))
+    else
+      some (token)
+  else
+    if ((sd.refreshTokenChunks.length : Int) == (0 : Int)) then
+      some (([] : Go.Str))
+    else
+      let chunks := ([] : List Go.Str)
+      let i := (0 : Int)
+      match Go.forWhile fuel (chunks, i) (fun (chunks, i) => true) (fun (chunks, i) =>
+        let (session, ok) := Go.imapGet sd.refreshTokenChunks i
+        if (!ok) then
+          .brk (chunks, i)
+        else
+          let (chunk, _u3) := Go.asStr (Go.sessVal sd session ['t','o','k','e','n','_','c','h','u','n','k'])
+          let chunks := (chunks ++ [chunk])
+          let i := (i + (1 : Int))
+          .next (chunks, i)) with
+      | none => none
+      | some (.ret r) => some r
+      | some (.next (chunks, i)) =>
+        let token := (Go.strsJoin chunks ([] : Go.Str))
+        let (compressed, _u4) := Go.asBool (Go.sessVal sd sd.refreshSession ['c','o','m','p','r','e','s','s','e','d'])
+        if compressed then
+          some ((sd.decompress token))
+        else
+          some (token)
+      | some (.brk (chunks, i)) =>
+        let token := (Go.strsJoin chunks ([] : Go.Str))
+        let (compressed, _u4) := Go.asBool (Go.sessVal sd sd.refreshSession ['c','o','m','p','r','e','s','s','e','d'])
+        if compressed then
+          some ((sd.decompress token))
+        else
+          some (token)
 
 end Oidc.Generated.Code
